@@ -18,5 +18,5 @@ cd /repo
 BASE=$(git merge-base main fix-$P)
 N=$(git rev-list --count $BASE..fix-$P)
 echo "cherry-picking $N fix commits of $P"
-if [ "$N" != "0" ]; then git cherry-pick $BASE..fix-$P || { echo "CHERRY-PICK CONFLICT in /repo"; exit 1; }; fi
+if [ "$N" != "0" ]; then git cherry-pick --empty=drop $BASE..fix-$P || { echo "CHERRY-PICK CONFLICT in /repo"; exit 1; }; fi
 git log --oneline -$((N+1)) | cat
